@@ -91,7 +91,7 @@ class World:
     def apply(self, e):
         op = e['op']
         if op in ('open', 'change', 'create'):
-            self.cur[e['file']] = e['text']
+            self.cur[e['file']] = e.get('text', '')
         elif op == 'delete':
             del self.cur[e['file']]
         elif op == 'rename':
@@ -117,7 +117,7 @@ def concretise(abstract, init, rng):
             e = {'op': 'config', 'text': CONFIGS[a[1]]}
         if not w.applicable(e):
             return None
-        if e['op'] == 'change' and w.cur[e['file']] == e['text']:
+        if e['op'] == 'change' and w.cur[e['file']] == e.get('text', ''):
             pass  # re-sending the same text is allowed (a no-op edit still triggers a lint)
         w.apply(e)
         out.append(e)
@@ -149,14 +149,16 @@ SMALL = [
 # event) and (structural event, state-changing event) occurs as two consecutive events of a one-at-a-time history
 # of length 3-4 (every prefix is a checkpoint compared with a from-scratch lint and with the model).
 INIT_X = {'a.rego': T('a_imports_b'), 'b.rego': T('b_plain'), 'c.rego': T('c_imports_rule_b_y')}
+# the same workspace found with the subject unparseable at start-up (its first "parses again" is then one event)
+INIT_XB = dict(INIT_X, **{'b.rego': T('broken_b')})
 X_STATES = {'P': T('b_other_rule'), 'B': T('broken_b'), 'E': T('empty'), 'A': T('b_plain')}
 X_STRUCT = ['open', 'change-other', 'create', 'rename', 'delete', 'config']
 
 
-def crossing_history(seq):
+def crossing_history(seq, init=None):
     """seq: state names (P/B/E/A) and structural event names -> concrete events; the subject is followed through a
     rename and re-created (didCreateFiles) after a delete"""
-    w = World(INIT_X)
+    w = World(init or INIT_X)
     subject = 'b.rego'
     out = []
     for x in seq:
@@ -185,25 +187,27 @@ def crossing_history(seq):
 
 
 def crossing_sequences(quick):
+    """[(initial workspace, sequence)]"""
     seqs = []
     for e in X_STRUCT:
-        seqs += [['B', e, 'A'], ['E', e, 'P'], ['P', e, 'B'], ['B', 'A', e, 'E']]
+        seqs += [(INIT_X, ['B', e, 'A']), (INIT_X, ['E', e, 'P']), (INIT_X, ['P', e, 'B']), (INIT_XB, ['A', e, 'E'])]
     if not quick:
         for e in X_STRUCT:
             for s1 in 'PBEA':
                 for s2 in 'PBEA':
-                    if [s1, e, s2] not in seqs:
-                        seqs.append([s1, e, s2])
+                    if (INIT_X, [s1, e, s2]) not in seqs:
+                        seqs.append((INIT_X, [s1, e, s2]))
+            seqs.append((INIT_X, ['B', 'A', e, 'E']))
         for i, e in enumerate(X_STRUCT):
             for s1 in 'PBEA':
-                seqs.append([e, s1, X_STRUCT[(i + 1) % len(X_STRUCT)]])
+                seqs.append((INIT_X, [e, s1, X_STRUCT[(i + 1) % len(X_STRUCT)]]))
     return seqs
 
 
 def crossing_pairs(seqs):
     """the ordered pairs of consecutive (state, structural) / (structural, state) events that the sequences contain"""
     ps = set()
-    for q in seqs:
+    for _, q in seqs:
         for a, b in zip(q, q[1:]):
             if (a in X_STATES) != (b in X_STATES):
                 ps.add((a, b))
@@ -211,7 +215,7 @@ def crossing_pairs(seqs):
 
 
 def all_parse(evs):
-    return all(e['op'] not in ('open', 'change', 'create') or CONTENTS[CID[e['text']]][2] for e in evs)
+    return all(e['op'] not in ('open', 'change', 'create') or CONTENTS[CID[e.get('text', '')]][2] for e in evs)
 
 
 def random_abstract(rng, files, n, parse_only=False):
@@ -244,11 +248,11 @@ def gen_jobs(ctx):
     need = {(a, b) for a in X_STATES for b in X_STRUCT} | {(b, a) for a in X_STATES for b in X_STRUCT}
     if not need <= crossing_pairs(xs):
         raise RuntimeError('crossing histories do not cover every (state, event) pair: %r' % sorted(need - crossing_pairs(xs)))
-    for q in xs:
-        evs = crossing_history(q)
+    for init, q in xs:
+        evs = crossing_history(q, init)
         if evs is None:
             raise RuntimeError('crossing history %r is not applicable' % (q,))
-        add('step', INIT_X, evs, 'crossing')
+        add('step', init, evs, 'crossing')
     # 1. exhaustive over the small alphabet (prefixes are covered by the checkpoints of step mode)
     alpha = SMALL[:6] if quick else SMALL[:8]
     depth = 2 if quick else 3
@@ -372,6 +376,10 @@ def run_histories(ctx, binary, jobs, name):
         os.makedirs(os.environ['VERIF_KEEP'], exist_ok=True)
         shutil.copy(outp, os.path.join(os.environ['VERIF_KEEP'], 'c15_' + name + '_out.jsonl'))
     res = [json.loads(l) for l in open(outp)]
+    for r in res:
+        for e in r.get('events') or []:
+            if e.get('op') in ('open', 'change', 'create'):
+                e.setdefault('text', '')     # the empty document: the harness omits the field
     by = {r['id']: r for r in res}
     return [by[j['id']] for j in jobs]
 
@@ -412,7 +420,7 @@ def cobs(ids, m):
 def cevent(e):
     op = e['op']
     if op in ('open', 'change', 'create'):
-        return 'ESet %d %d' % (URIS.index(e['file']), CID[e['text']])
+        return 'ESet %d %d' % (URIS.index(e['file']), CID[e.get('text', '')])      # the empty document: the harness omits the field
     if op == 'delete':
         return 'EDelete %d' % URIS.index(e['file'])
     if op == 'rename':
@@ -654,7 +662,7 @@ def race_confined(c, agg_codes):
 def describe(c):
     def ev(e):
         if e['op'] in ('open', 'change', 'create'):
-            return '%s(%s,%s)' % (e['op'], e['file'], CONTENTS[CID[e['text']]][0])
+            return '%s(%s,%s)' % (e['op'], e['file'], CONTENTS[CID[e.get('text', '')]][0])
         if e['op'] == 'rename':
             return 'rename(%s,%s)' % (e['file'], e['to'])
         if e['op'] == 'config':
@@ -683,8 +691,28 @@ def replay_obj(c, kind, extra=None):
     return o
 
 
+def explained_by_model(ev, i):
+    """exact attribution of diverged case i: the observation equals the prediction of the model of the current code, that
+    prediction is reproduced by the model in which exactly the named open defects are present (bit 128 clear), at least
+    one defect is named, and the fully repaired model converges (bit 64 clear)"""
+    mask = ev['attr'].get(i, 64)
+    return i not in ev['model_mismatch'] and (mask & (64 | 128)) == 0 and (mask & 31) != 0
+
+
+def unexplained_divergence(ctx, binary):
+    """predicate for the shrinker: the candidate still diverges AND the divergence is still not one the modelled open
+    defects explain (otherwise a new defect would be 'minimised' into a replay of a known one)"""
+    def pred(cands):
+        cs = [dict(cc, final=True, job=k, tag='shrink') for k, cc in enumerate(cands)]
+        if not cs:
+            return []
+        ev = evaluate(ctx, binary, cs)
+        return [diverged(cc) and not explained_by_model(ev, k) for k, cc in enumerate(cs)]
+    return pred
+
+
 def shrink(ctx, binary, c, still_bad):
-    """greedy one-event-at-a-time minimisation on the real server; still_bad(case) -> bool"""
+    """greedy one-event-at-a-time minimisation on the real server; still_bad(list of cases) -> list of bool"""
     cur = c
     progress = True
     budget = 6
@@ -706,11 +734,11 @@ def shrink(ctx, binary, c, still_bad):
         if not cands:
             break
         runs = run_histories(ctx, binary, cands, 'shrink%d' % budget)
-        for r, j in zip(runs, cands):
-            if r.get('error'):
-                continue
-            cc = dict(j, published=r['published'] or {}, fresh=r['fresh'] or {}, final=True)
-            if diverged(cc) and still_bad(cc):
+        ccs = [dict(j, published=r['published'] or {}, fresh=r['fresh'] or {}, final=True)
+               for r, j in zip(runs, cands) if not r.get('error')]
+        ccs = [cc for cc in ccs if diverged(cc)]
+        for cc, bad in zip(ccs, still_bad(ccs)):
+            if bad:
                 cur = cc
                 progress = True
                 break
@@ -755,7 +783,7 @@ def run(ctx):
         # exact attribution: the observation equals the prediction of the model of the current code (not in
         # model_mismatch), that prediction is reproduced by the model in which exactly the named defects are present
         # (bit 128 clear), and it is not the reference (some named defect: mask & 31); the fully repaired model converges
-        explained = i not in ev['model_mismatch'] and (mask & (64 | 128)) == 0 and (mask & 31) != 0
+        explained = explained_by_model(ev, i)
         if explained:
             for bit, (key, what) in DEFECTS.items():
                 if mask & bit:
@@ -781,7 +809,7 @@ def run(ctx):
     for i in unexplained[:2]:
         c = cases[i]
         # only one-at-a-time histories are deterministic enough to be minimised by re-running them
-        small = c if (ctx.replay or c['mode'] != 'step') else shrink(ctx, binary, c, lambda cc: True)
+        small = c if (ctx.replay or c['mode'] != 'step') else shrink(ctx, binary, c, unexplained_divergence(ctx, binary))
         vlib.violation(ctx, replay_obj(small, 'published-differs-from-fresh-lint',
                                        {'original': describe(c), 'model_agrees_with_observation': i not in ev['model_mismatch'],
                                         'attribution_mask': ev['attr'].get(i)}),
